@@ -124,7 +124,7 @@ EffMallocFrom(c) ==
       n == c.x * c.e IN
   IF c.x = 0 THEN Noop
   ELSE IF c.x < 0 THEN Err
-  ELSE IF ~src.init \/ Elems(src) = 0
+  ELSE IF ~src.init \/ src.len = 0
     THEN Ok(PutView(c.t, [init |-> TRUE, st |-> FreshStore, off |-> 0, len |-> n, esz |-> c.e, kind |-> "buf"]),
             [mem EXCEPT ![FreshStore] = [i \in 1..n |-> U]], <<>>)
   ELSE IF n > src.len THEN Err
@@ -264,7 +264,7 @@ Cmd(a) == [C0 EXCEPT !.a = a, !.t = LowSlot, !.pat = PatSeq(k)]
 Malloc == \E e \in ESizes : \E a \in PickArgs(MallocDom(e) \X {0, 1}, LAMBDA a : a[1] >= 0) :
             Do([Cmd("Malloc") EXCEPT !.x = a[1], !.e = e, !.f = a[2]])
 MallocFrom == \E v \in PickH : \E e \in ESizes :
-              \E n \in PickArgs(MallocDom(e), LAMBDA n : n >= 0 /\ (V(v).init /\ Elems(V(v)) > 0 => n * e <= V(v).len)) :
+              \E n \in PickArgs(MallocDom(e), LAMBDA n : n >= 0 /\ (V(v).init /\ V(v).len > 0 => n * e <= V(v).len)) :
                 Do([Cmd("MallocFrom") EXCEPT !.v = v, !.x = n, !.e = e])
 WrapArgs == {a \in WrapAt \X (-2..Len(mem[0])) \X ESizes : a[1] <= Len(mem[0]) /\ (a[2] >= 0 => a[1] + a[2] * a[3] <= Len(mem[0]))}
 Wrap == /\ Len(mem[0]) > 0
